@@ -105,6 +105,10 @@ GEN_TEMPLATES = [
     "import sys, os\ncimport cython\n\ncdef class A:\n    cdef public int x\n    cdef dict d\n    def __init__(self, x):\n        self.x = x\n        self.d = {'a': 1, 'b': 2, 'c': x}\n    cpdef int get(self):\n        return self.x + %(v)d\n\ndef f(a, b=%(v)d, *args, **kw):\n    s = {a, b, 'x', 'y', 'z'}\n    return sorted(s), kw\n\ndef g():\n    yield from range(%(v)d)\n",
     "from libc.math cimport sqrt, sin, cos\nfrom libc.stdlib cimport malloc, free\n\ncdef extern from \"h_b_%(v)d.h\":\n    int xb\ncdef extern from \"h_a_%(v)d.h\":\n    int xa\ncdef extern from \"h_c.h\":\n    int xc\n\ncdef struct P:\n    double x\n    double y\n\ncdef double norm(P p) noexcept nogil:\n    return sqrt(p.x * p.x + p.y * p.y)\n\ndef n(x, y):\n    cdef P p\n    p.x = x; p.y = y\n    return norm(p) + %(v)d\n",
     "ctypedef fused num:\n    int\n    double\n    long long\n\ncpdef num add(num a, num b):\n    return a + b\n\ndef strs():\n    return ['alpha', 'beta', u'gamma', b'delta', 'k%(v)d', f'{1}-{2}']\n\nclass K(object):\n    a = 1\n    def m(self, *, kw=None):\n        return {'k': kw, 'j': %(v)d}\n\nasync def co(x):\n    return [i async for i in x]\n",
+    # type zoo: the same C type declarations in every module built from this template (helpers generated per *type*
+    # - cfunc-to-py wrappers, ctuple/struct/array conversions, memoryview slices, enum-to-py - are named after a type
+    # identifier; any per-process memo of those names shows up when two such modules are compiled in one process)
+    "cimport cython\n\ncdef struct Pt:\n    int x\n    double y\n\ncpdef enum Colour:\n    RED = 1\n    GREEN = %(v)d + 1\n\ncdef int cb(int a, double b):\n    return a + <int>b + %(v)d\n\ncdef (int, double) pair(int a):\n    return a, a * 0.5\n\ndef zoo(int n, double[:, ::1] mv, object o):\n    cdef Pt p = Pt(n, 2.0)\n    cdef int[4] arr = [1, 2, 3, n]\n    cdef (int, double) t = pair(n)\n    cdef object f = cb\n    cdef int[:] row = arr\n    cdef Pt q = o\n    return p, arr, t, f, mv[0, 0], row[1], q, Colour.RED, <Colour>n\n\ndef gz(list l):\n    cdef int i\n    return sum(i * %(v)d for i in l), (x for x in l)\n",
     "import cython\n\n@cython.cclass\nclass B:\n    v: cython.int\n    def __init__(self):\n        self.v = %(v)d\n\n@cython.cfunc\ndef helper(a: cython.int, b: cython.double) -> cython.double:\n    return a * b\n\ndef lam():\n    return [lambda x, i=i: x + i for i in range(3)], {n: n*n for n in (1, 2, %(v)d)}\n",
 ]
 
@@ -115,7 +119,7 @@ def build_corpus(rng, d):
     k = rng.randint(3, 6)
     for j in range(k):
         t = rng.randrange(len(GEN_TEMPLATES))
-        ext = ".py" if t == 3 else ".pyx"
+        ext = ".py" if t == len(GEN_TEMPLATES) - 1 else ".pyx"
         n = "g%d_%d%s" % (j, t, ext)
         with open(os.path.join(d, n), "w") as f:
             f.write(GEN_TEMPLATES[t] % {"v": rng.randint(1, 5)})
